@@ -34,3 +34,6 @@ pub use popcount::{popcount_word, popcount_word_portable, popcount_words};
 pub use rank::RankDirectory;
 pub use scan::{block_popcount_portable, scan_select, scan_select_scalar, select_from, BLOCK};
 pub use select::{SampleWord, SelectIndex};
+
+#[cfg(feature = "verif-hooks")]
+pub(crate) use scan::{verif_block_popcount, verif_block_popcount_avx2};
